@@ -7,7 +7,7 @@ For every <dir>/<Cxx>/b<N>/ (patch.diff, demo.py, meta.json):
   * demo.py exits 0 on the patched copy AND on the unpatched /repo (what the author offers as evidence of equivalence),
   * every check is run on the patched copy; the outcome (silent / VIOLATION / ANALYSIS-ERROR per check) is recorded.
 Kept entries get meta.json["confirmed"] and are copied to /verif/benign/<Cxx>-b<N>/.  /repo is never modified.
-usage: tools/verifybenign.py <dir> [--jobs N] [--no-archive]
+usage: tools/verifybenign.py <dir> [--jobs N] [--no-archive] [--tag r4]
 """
 import concurrent.futures as cf
 import glob
@@ -76,12 +76,13 @@ def main():
     if '--jobs' in sys.argv:
         jobs = int(sys.argv[sys.argv.index('--jobs') + 1])
     archive = '--no-archive' not in sys.argv
+    tag = sys.argv[sys.argv.index('--tag') + 1] if '--tag' in sys.argv else ''
     dirs = sorted(os.path.dirname(p) for p in glob.glob(os.path.join(root, '*', 'b*', 'patch.diff')))
     kept = 0
     with cf.ThreadPoolExecutor(jobs) as ex:
         for res in ex.map(one, dirs):
             d = res['dir']
-            name = f'{os.path.basename(os.path.dirname(d))}-{os.path.basename(d)}'
+            name = f'{os.path.basename(os.path.dirname(d))}-{tag}{os.path.basename(d)}'
             if not res['ok']:
                 print(f'REJECT {name}: {res.get("why")}')
                 continue
